@@ -163,7 +163,9 @@ func runShard(p *Property, tier string, seed int64, shard, of, from, only, subFr
 		// a soft limit for the collector at half of it: garbage of thousands of inputs handled
 		// by one process must not be what exhausts the address space (a single request the
 		// limit cannot hold still fails, which is the event the limit is there to show)
-		debug.SetMemoryLimit(int64(p.ASLimit / 2))
+		if os.Getenv("VERIF_NO_MEMLIMIT") == "" {
+			debug.SetMemoryLimit(int64(p.ASLimit / 2))
+		}
 	}
 	f, err := os.OpenFile(outPath, os.O_WRONLY|os.O_APPEND|os.O_CREATE, 0o644)
 	if err != nil {
